@@ -5,7 +5,7 @@ import filter_functions as ff
 from filter_functions import gradient, util
 
 from .. import gens
-from ..common import arr2bits, bits2arr, driver
+from ..common import arr2bits, bits2arr, corr_script, driver
 
 THEOREMS = '''liouvilleA_matrix_element liouvilleA_exact liouvilleA_masked_error liouvilleA_error
 liouvilleA_error_current liouvilleA_degenerate liouvilleAMat_degenerate derivativeIntegral_exact
@@ -26,11 +26,23 @@ liouvilleAMat_sub_A_le segment_propagator_derivative_model segment_propagator_de
 segment_propagator_eq_ratio cumulative_propagator_derivative cumulative_propagator_derivative_model
 exists_isEigh eigh_family_exists liouville_derivative_entry liouville_derivative_get
 liouville_derivative_contraction liouville_derivative_assembly liouville_derivative_of_pulse'''.split()
-LEAN_MODULES = ['FFVerif.Props.C11', 'FFVerif.Props.C11Deriv', 'FFVerif.Props.C07']
+LEAN_MODULES = ['FFVerif.Props.C11', 'FFVerif.Props.C11Deriv', 'FFVerif.Props.C07', 'FFVerif.Props.C11Asm',
+                'FFVerif.Props.C11AsmDeriv']
+# modules C11Asm / C11AsmDeriv: the array assembly of the control-matrix derivative (model GradientAsm) equals
+# the docstring's product-rule formula and IS the derivative (HasDerivAt) of the control-matrix model w.r.t.
+# each control amplitude on each segment, with and without control-dependent sensitivities
+THEOREMS = THEOREMS + [
+    'FFVerif.C11.ctrlmatStepM_entry', 'FFVerif.C11.ctrlmatStepM_smul',
+    'FFVerif.C11.ctrlmatStepDeriv_entry', 'FFVerif.C11.liouvilleDerivative_theta',
+    'FFVerif.C11.controlMatrixDeriv_entry', 'FFVerif.C11.step_control_matrix_hasDerivAt',
+    'FFVerif.C11.liouville_derivative_model_hasDerivAt', 'FFVerif.C11.controlMatrixIntegral_hasDerivAt',
+    'FFVerif.C11.controlMatrixDeriv_hasDerivAt', 'FFVerif.C11.controlMatrixIntegral_hasDerivAt_sens',
+    'FFVerif.C11.controlMatrixDeriv_hasDerivAt_sens', 'FFVerif.C11.filterFunctionDeriv_hasDerivAt',
+    'FFVerif.CmDerivAux.segment_integral_hasDerivAt', 'FFVerif.CmDerivAux.Eprop_hasDerivAt']
 PINS = ['pinGetFFDerivative', 'pinGradControlMatrix', 'pinInfidelityDerivative', 'C11_gradient_source_shape', 'C11_gradient_einsum_shape']
 GEN_SITES = ['cache:cleanup', 'cache:method_bodies', 'const:gradient.masks', 'einsum:gradient_calculate_filter_function_derivative_0',
              'einsum:gradient_infidelity_derivative_0', 'einsum:gradient__liouville_derivative_0']
-COMPONENTS = ['derivative_integral', 'liouville_A', 'ff_derivative', 'infidelity_derivative']
+COMPONENTS = ['derivative_integral', 'liouville_A', 'ff_derivative', 'infidelity_derivative']   # + corr_c11asm
 RULES = ['correspondence: _derivative_integral, A_mat, calculate_filter_function_derivative and the '
          'spectrum integration of infidelity_derivative vs the Lean model at doubles (random, '
          'exactly resonant, degenerate and all-degenerate inputs); search: analytic derivatives of '
@@ -39,14 +51,17 @@ RULES = ['correspondence: _derivative_integral, A_mat, calculate_filter_function
          'exactly zero amplitudes, drift excluded by identifier, every subset/order of control and '
          'noise identifiers, with/without n_coeffs_deriv, all values finite, per-operator spectra '
          'for the selected operators; distinct = input hash; non-trivial = >= 2 segments']
-ASSUMPTIONS = ['the perturbative assembly (_liouville_derivative, '
-               '_control_matrix_at_timestep_derivative) is validated by finite differences, not '
-               'proved']
-TRUSTED = ['modelled not verified: assembly of the control-matrix derivative (util.tensor, '
-           'np.diagonal, reshapes, the d == 2 shortcut)']
+ASSUMPTIONS = ['the derivative theorems exclude the grey zones of the absolute masks by hypothesis '
+               '(AMatSharp, DerivIntegralSharp, FirstOrderExact); the trapezoid integration over the '
+               'frequency grid is linear (infidelity_derivative_linear) but not composed with them']
+TRUSTED = ['modelled not verified: reuse of cached intermediates inside '
+           'calculate_derivative_of_control_matrix_from_scratch (covered by the cache machine of C07 and '
+           'by the search)']
 
 
 def correspondence(ctx):
+    # the whole assembly calculate_derivative_of_control_matrix_from_scratch vs the model GradientAsm
+    corr_script(ctx, 'corr_c11asm', ['cmderiv'])
     rng = ctx.rng('corr')
     reqs, exps = [], []
 
@@ -363,7 +378,9 @@ def search(ctx, deep=False):
     check_grey_zone(ctx, {'E': 0.3, 'split': 0.7, 'dt': 1.3})      # control: generic values
     for i in range(n):
         feats = gens.rand_features(rng, 0.35, ['idle', 'degenerate', 'repeat', 'neg_sens',
-                                               'nontraceless_nop', 'structured'])
+                                               'nontraceless_nop', 'structured', 'full_rotation'])
+        if i % 5 == 2:
+            feats = sorted(set(feats) | {'full_rotation'})
         d = int(rng.choice([2, 2, 3]))
         desc = gens.rand_desc(rng, d=d, n_dt=int(rng.integers(1, 4)), n_c=int(rng.integers(1, 4)),
                               n_n=int(rng.integers(1, 3)), features=feats,
